@@ -577,6 +577,26 @@ where
 }
 
 // TODO: This is not parallel at the moment...
+/// Checks that the name of a tree node is a single normal path component.
+///
+/// Node names are joined to the path of their tree; a name like `..`, `a/../..` or an absolute
+/// path would yield a path outside of the tree's directory.
+///
+/// # Errors
+///
+/// * If the name is empty, absolute, or contains `.`/`..` or a path separator
+fn check_node_name(name: &OsStr) -> RusticResult<()> {
+    let mut components = Path::new(name).components();
+    match (components.next(), components.next()) {
+        (Some(Component::Normal(_)), None) => Ok(()),
+        _ => Err(RusticError::new(
+            ErrorKind::Verification,
+            "Invalid node name `{name}` in tree: names must be a single path component.",
+        )
+        .attach_context("name", name.to_string_lossy().to_string())),
+    }
+}
+
 impl<BE, I> Iterator for NodeStreamer<'_, BE, I>
 where
     BE: DecryptReadBackend,
@@ -587,6 +607,9 @@ where
     fn next(&mut self) -> Option<Self::Item> {
         loop {
             if let Some(node) = self.inner.next() {
+                if let Err(err) = check_node_name(&node.name()) {
+                    return Some(Err(err));
+                }
                 let path = self.path.join(node.name());
                 if self.recursive
                     && let Some(id) = node.subtree
